@@ -467,6 +467,7 @@ fn gen_module(id: usize, sh: &Shape) -> String {
     s += "            .build();\n";
     // a cycle far below f32::EPSILON seconds is still a positive duration and is reported as configured
     s += &format!("        {{ let tiny = {w}::timeline().duration_seconds(5.9604645e-8).repeat(Repeat::Times(1)).build(); r.checks += 2; if tiny.cycle_duration() != Some(5.9604645e-8) || tiny.duration() != 1.1920929e-7 {{ r.bad(id, format!(\"metadata: cycle 2^-24 s reported as {{:?}}, total {{}}\", tiny.cycle_duration(), tiny.duration())); }} }}\n");
+    s += &format!("        {{ let z = {w}::timeline().duration_seconds(2.0).repeat(Repeat::Times(0)).build(); r.checks += 2; if z.repeat() != Repeat::Times(0) || z.duration() != 2.0 {{ r.bad(id, format!(\"metadata: repeat(Times(0)) reported as {{:?}}, total {{}}\", z.repeat(), z.duration())); }} }}\n");
     s += "        r.checks += 4;\n        if tl.delay() != 0.5 || tl.cycle_duration() != Some(2.0) || tl.repeat() != Repeat::Times(1) || tl.duration() != 4.5 { r.bad(id, format!(\"metadata: delay {} cycle {:?} repeat {:?} duration {}\", tl.delay(), tl.cycle_duration(), tl.repeat(), tl.duration())); }\n";
     s += "        for j in 0..=40 {\n            let time = j as f32 * 0.125;\n            let mut t = sentinel.clone();\n            tl.update(&mut t, time);\n            let q = ref_pos(time as f64);\n";
     for i in 0..n {
@@ -701,7 +702,7 @@ pub fn run(run: Run) -> ! {
     cov.insert("programs_compiled".into(), json!(compiled));
     cov.insert("evaluations".into(), json!(shapes_a + checks));
     cov.insert("distinct_nontrivial".into(), json!(shapes_a));
-    cov.insert("rule".into(), json!(format!("Layer A (in-process expansion of the real derive source, parsed as a syn::File): ALL struct shapes with {} fields over types {{f32,f64,u8,i16,i32,u32}} x every #[animate] subset x struct visibility {{private,pub,pub(crate)}} (field visibilities rotated) x {{local, #[animate(remote = ...)] proxy (bare identifier or module-qualified path)}}, with doc comments / #[allow] / #[cfg] attributes before or after the #[animate] marker and on the struct (rotated over all shapes, and exhaustively for 1..2 fields), plus (Layer B) 72 structs whose middle or first field is named like an identifier of the generated code or of the builder API (normalized_time, frame_index, values, easing, build, ...), plus 48 WIDE structs (8, 12, 20, 33 fields x markers none/all/even/first/last/one-in-the-middle x local/remote; three of them compiled in quick, all in thorough) and 6 structs with one field of each of the 11 numeric types (f32 f64 u8 i16 i32 u32 i8 u16 i64 u64 usize; two compiled in quick); oracle: animated field set = attributed fields, or all if none is attributed; the keyframe builder has exactly one public setter per animated field with the field's type, keyframe data and t_<field> sub-timelines likewise, keyframe_from / values_from / update / start_with touch exactly the animated fields and are wired name-to-name, Target is the (remote) type, visibility copied, accessors forwarded to the time scale. Layer B: {} shapes compiled with the real derive: setter presence observed at run time (inherent-vs-trait method resolution), keyframe_from copies exactly the animated fields, also when the source holds zeros (and a later setter, or a second call of the same setter, overrides), un-animated fields keep sentinels, every animated field interpolates per a linear reference on a 41-point time grid; a keyframe that names Easing::Linear explicitly under a non-linear default easing interpolates linearly (in every other shape each (position, field) is its own keyframe, so keyframes share positions) (delay, two cycles, after the end), a timeline with a negative delay is evaluated at negative times on both sides of its shifted start, a field first keyed at 50% with its own easing has a lead-in eased by the default easing, a keyframe with an easing that does not define the field leaves that field's segments alone, metadata accessors return the configured values, and a stepped animation of the first animated field (40 holds = 80 keyframes with tied positions, end-of-hold keyframes added before start-of-hold ones) shows each hold's value inside the hold ({} run-time checks)", if thorough { "1..5 (6 types) and 6 (3 types)" } else { "1..4" }, compiled, checks)));
+    cov.insert("rule".into(), json!(format!("Layer A (in-process expansion of the real derive source, parsed as a syn::File): ALL struct shapes with {} fields over types {{f32,f64,u8,i16,i32,u32}} x every #[animate] subset x struct visibility {{private,pub,pub(crate)}} (field visibilities rotated) x {{local, #[animate(remote = ...)] proxy (bare identifier or module-qualified path)}}, with doc comments / #[allow] / #[cfg] attributes before or after the #[animate] marker and on the struct (rotated over all shapes, and exhaustively for 1..2 fields), plus (Layer B) 72 structs whose middle or first field is named like an identifier of the generated code or of the builder API (normalized_time, frame_index, values, easing, build, ...), plus 48 WIDE structs (8, 12, 20, 33 fields x markers none/all/even/first/last/one-in-the-middle x local/remote; three of them compiled in quick, all in thorough) and 6 structs with one field of each of the 11 numeric types (f32 f64 u8 i16 i32 u32 i8 u16 i64 u64 usize; two compiled in quick); oracle: animated field set = attributed fields, or all if none is attributed; the keyframe builder has exactly one public setter per animated field with the field's type, keyframe data and t_<field> sub-timelines likewise, keyframe_from / values_from / update / start_with touch exactly the animated fields and are wired name-to-name, Target is the (remote) type, visibility copied, accessors forwarded to the time scale. Layer B: {} shapes compiled with the real derive: setter presence observed at run time (inherent-vs-trait method resolution), keyframe_from copies exactly the animated fields, also when the source holds zeros (and a later setter, or a second call of the same setter, overrides), un-animated fields keep sentinels, every animated field interpolates per a linear reference on a 41-point time grid; a keyframe that names Easing::Linear explicitly under a non-linear default easing interpolates linearly (in every other shape each (position, field) is its own keyframe, so keyframes share positions) (delay, two cycles, after the end), a timeline with a negative delay is evaluated at negative times on both sides of its shifted start, a field first keyed at 50% with its own easing has a lead-in eased by the default easing, a keyframe with an easing that does not define the field leaves that field's segments alone, metadata accessors return the configured values (also Times(0), which is not None), and a stepped animation of the first animated field (40 holds = 80 keyframes with tied positions, end-of-hold keyframes added before start-of-hold ones) shows each hold's value inside the hold ({} run-time checks)", if thorough { "1..5 (6 types) and 6 (3 types)" } else { "1..4" }, compiled, checks)));
     cov.insert("exhaustive".into(), json!(true));
     cov.insert("compiled_runtime_checks".into(), json!(checks));
     cov.insert("samples".into(), json!(acc.samples));
